@@ -44,9 +44,26 @@ class Ctx:
         self.model = syncmodel.SyncModel(facts, self.st, self.events)
         self.R = facts.body(SYNC)
         bs = [b for b, t in self.R.calls() if t.get("callee") == META_WRITE]
+        if not bs:
+            # the switch-over may sit in a helper of Sync::sync: the barrier is the call through which
+            # Meta::write is reached synchronously
+            for ed in self.model.edges(self.R):
+                if ed.kind in ("sync", "closure") and ed.target and META_WRITE in reach_sync(self, ed.target):
+                    bs.append(ed.bb)
         if len(bs) != 1:
-            raise CheckBroken("ANCHOR-MISSING: Sync::sync must contain exactly one call to Meta::write (found %d)" % len(bs))
+            raise CheckBroken("ANCHOR-MISSING: Sync::sync must reach Meta::write through exactly one call site (found %d)" % len(bs))
         self.B = bs[0]
+
+
+def reach_sync(ctx, fn, depth=0, seen=None):
+    seen = seen if seen is not None else set()
+    if fn in seen or depth > 3 or fn not in ctx.facts.bodies:
+        return seen
+    seen.add(fn)
+    for ed in ctx.model.edges(ctx.facts.bodies[fn]):
+        if ed.kind in ("sync", "closure") and ed.target:
+            reach_sync(ctx, ed.target, depth + 1, seen)
+    return seen
 
 
 def event_class_in(e, classes):
@@ -303,8 +320,10 @@ def o4(ctx, rep):
                 later = w.chain[k][2] in A.reachable(A.succ(s_.chain[k][2]), A.ok_removed())
                 rep.check(not later, "O4", fn, "no-write-after-sync", "a write to the meta file can follow its fsync", site=s_.event.site, detail="nothing after the fsync")
     callers = {c[0] for c in ctx.facts.callers().get(META_WRITE, [])}
-    allowed = {SYNC, "nomt::store::create"}
-    rep.check(callers <= allowed and SYNC in callers, "O4", fn, "callers", "Meta::write is called from %s (allowed: Sync::sync, store::create)" % sorted(callers - allowed), detail="callers = %s" % sorted(callers))
+    okp = ("nomt::store::sync::", "nomt::store::create", "nomt::store::meta::")
+    bad = sorted(c for c in callers if not c.startswith(okp))
+    reaches = META_WRITE in reach_sync(ctx, SYNC)
+    rep.check(not bad and reaches, "O4", fn, "callers", "Meta::write is called from %s (only the sync coordinator in store::sync and store::create may switch the meta page over)" % bad, detail="callers = %s" % sorted(callers))
     return 6
 
 
